@@ -34,6 +34,7 @@ int gh_tv[8];                  /* the delivered translation numbers, by value (e
 #include <limits.h>
 #define GH_NILT INT_MAX        /* == YAEP_NIL_TRANSLATION_NUMBER (checked by a static assertion in rgrule.spec.c) */
 /* what the symbol-table and rule-storage callees were asked and answered while the current rule is taken in */
+extern int gh_anyrule, gh_err_added, gh_d_cost; extern size_t gh_d_lhs, gh_d_rhs, gh_d_anode, gh_d_transl;   /* RG.rules: a rule has been taken in / the `error' terminal exists */
 int gh_first;                  /* this is the first rule: $S, $eof and the start rule are made */
 int gh_nfind, gh_fr_hit, gh_fr_term, gh_fr_ax, gh_fr_em; size_t gh_fr_arg;   /* lookups by name: count, and argument (its address as a number: a ghost POINTER tied to a
    string literal by an assumed equality blocks the path in cbmc 6.11) / answer of the last one */
